@@ -27,6 +27,9 @@ def rand_pos(rng, box, pts_taken, edge=False):
 
 def setup(spec):
     sim = rebound.Simulation()
+    # the library seeds its random numbers (order in which collisions are resolved) from the clock and the pid: fix it, so that a history is a
+    # function of its spec
+    sim.rand_seed = (int(spec.get("seed", 1)) * 2654435761 + 12345) & 0x7fffffff
     sim.integrator = "leapfrog"
     sim.dt = spec["dt"]
     sim.gravity = spec.get("gravity", "none")
@@ -265,6 +268,10 @@ def run_tree(spec):
             # (done near the end of a history, so that an open defect on this path does not hide the rest of the history)
             if use_tree and step == spec["steps"] - 3 and spec.get("badadd", True) and sim.N > 0:
                 kind_bad = rng.choice(["same_coordinates", "outside_box"])
+                if sim.collision != "none" and not recorder:
+                    # merging moves a particle to the centre of mass AFTER the tree update of the collision search: until the next update the tree
+                    # is legitimately stale for it, the insertion is routed to another cell and cannot see the coincidence: no refusal can be demanded
+                    kind_bad = "outside_box"
                 live_idx = [i for i in range(sim.N) if not math.isnan(sim.particles[i].y)]
                 if live_idx:
                     src = sim.particles[rng.choice(live_idx)]
@@ -935,6 +942,123 @@ def run_near(spec):
         res["fail"] = {"key": fkey, "what": "library raised (separation class %s): %s" % (sep, e)}
     return res
 
+
+# ------------------------------------------------------------------------------------------------ history vs fresh
+def run_hvf(spec):
+    """A simulation whose tree / box has a history must behave like a FRESH simulation holding the same particles, time and settings:
+    same forest (cells, counts, leaf indices) after a tree update, same accounting, and the same particles bit for bit after further steps."""
+    rng = random.Random(spec["seed"])
+    res = {"fail": None, "dumps": [], "upd": [], "bcases": [], "stats": {"tree_checks": 0, "shape_checks": 0, "ties": 0, "maxdepth": 0, "cells": 0,
+                                                                         "grav_checks": 0, "steps": 0, "hvf": 0}}
+    rs = spec["rs"]; box = L.Box(rs, *spec["n"])
+    op = spec["op"]
+    # every history in which the tree exists but is idle for a while belongs to the open finding (with open boundaries the boundary check itself
+    # removes particles while the tree is idle)
+    key = "tree:stale_tree_after_mode_switch" if op in ("tree_off_add_on", "tree_off_remove_on", "tree_off_on") else "hvf:differs_from_fresh"
+    H = setup(spec)
+    if H.collision != "none":
+        H.collision_resolve = lambda s_, c_: 0
+    taken = set(); nid = [0]; expected = set()
+
+    def addp(sim):
+        pt = rand_pos(rng, box, taken); taken.add(pt); nid[0] += 1
+        sim.add(m=rng.uniform(0.2, 1.0) * 1e-3 * rs ** 3, x=pt[0], y=pt[1], z=pt[2], vx=rng.gauss(0, spec["vel"]), vy=rng.gauss(0, spec["vel"]),
+                vz=rng.gauss(0, spec["vel"]), r=spec.get("radius", 0.0), hash=nid[0])
+        expected.add(nid[0])
+
+    def removep(sim):
+        i = rng.randrange(sim.N); expected.discard(sim.particles[i].hash.value)
+        sim.remove(index=i, keep_sorted=False)
+
+    def steps(sim, k):
+        for _ in range(k):
+            sim.step(); res["stats"]["steps"] += 1
+    try:
+        for i in range(spec["N"]):
+            addp(H)
+        steps(H, 3)
+        g0, c0, b0 = H.gravity, H.collision, H.boundary
+        if op == "boundary_switch":
+            H.boundary = "open" if b0 != "open" else "periodic"; steps(H, 2); H.boundary = b0; steps(H, 1)
+        elif op in ("tree_off_on", "tree_off_add_on", "tree_off_remove_on"):
+            H.gravity = "basic" if g0 == "tree" else g0
+            H.collision = "direct" if c0 in ("tree", "linetree") else c0
+            steps(H, 1)
+            if op == "tree_off_add_on":
+                addp(H)
+            if op == "tree_off_remove_on":
+                removep(H)
+            steps(H, 2)
+            H.gravity = g0; H.collision = c0
+            steps(H, 1)
+        elif op == "remove_readd":
+            for _ in range(2):
+                removep(H); addp(H)
+            steps(H, 1)
+        elif op == "copy":
+            H = H.copy()
+            if H.collision != "none":
+                H.collision_resolve = lambda s_, c_: 0
+        elif op == "restore":
+            import tempfile
+            d = tempfile.mkdtemp(prefix="c15r_"); fn = os.path.join(d, "s.bin"); H.save_to_file(fn, delete_file=True); H = rebound.Simulation(fn)
+            if H.collision != "none":
+                H.collision_resolve = lambda s_, c_: 0
+            import shutil; shutil.rmtree(d, ignore_errors=True)
+        elif op == "reconfigure_same":
+            H.configure_box(rs, *spec["n"]); steps(H, 1)
+        elif op == "error_once":
+            q0 = H.particles[0]
+            try:
+                H.add(m=1e-9, x=q0.x, y=q0.y, z=q0.z)
+            except RuntimeError:
+                pass
+            try:
+                H.remove(index=H.N + 3, keep_sorted=False)
+            except RuntimeError:
+                pass
+            steps(H, 1)
+        res["stats"]["hvf"] += 1
+        # ---- the fresh simulation: same settings, same particles in the same order, same time
+        st = state(H)
+        ids_now = set(s[0] for s in st if s[2] == s[2])
+        lossy = spec["boundary"] == "open" or op == "boundary_switch"      # (the history passed through open boundaries)
+        if (not lossy and ids_now != expected) or not ids_now <= expected:
+            raise Fail(key, "after the history (%s) particles %s are gone / %s unexpected (N=%d, boundary %s, gravity=%s collision=%s)"
+                       % (op, sorted(expected - ids_now)[:5], sorted(ids_now - expected)[:5], H.N, spec["boundary"], spec.get("gravity"), spec.get("collision")))
+        if any(any(v != v for v in s[1:7]) for s in st):
+            raise Fail(key, "after the history (%s) the simulation holds particles with NaN coordinates: N=%d" % (op, H.N))
+        F = setup(spec)
+        if F.collision != "none":
+            F.collision_resolve = lambda s_, c_: 0
+        for s in st:
+            F.add(m=s[7], x=s[1], y=s[2], z=s[3], vx=s[4], vy=s[5], vz=s[6], r=s[8], hash=s[0])
+        F.t = H.t
+        clib.reb_simulation_update_tree(ctypes.byref(H)); clib.reb_simulation_update_tree(ctypes.byref(F))
+        fH = L.dump_tree(H); fF = L.dump_tree(F)
+        if [s[0] for s in state(H)] != [s[0] for s in state(F)]:
+            raise Fail(key, "after a tree update the particle order of the simulation with a history (%s) differs from the fresh one" % op)
+        def eq(a, b):
+            if a is None or b is None:
+                return a is None and b is None
+            return (a["pt"], a["x"], a["y"], a["z"], a["w"]) == (b["pt"], b["x"], b["y"], b["z"], b["w"]) and all(eq(x, y) for x, y in zip(a["oct"], b["oct"]))
+        if (fH is None) != (fF is None) or (fH is not None and not all(eq(a, b) for a, b in zip(fH, fF))):
+            partH = [(s[1], s[2], s[3], s[7]) for s in state(H)]
+            errs = L.wfb_py(box, partH, H.N, fH) if fH is not None else ["no tree"]
+            raise Fail(key, "history (%s): the forest differs from the forest of a fresh simulation with the same particles (gravity=%s collision=%s boundary=%s); "
+                            "checker on the old one: %s" % (op, spec.get("gravity"), spec.get("collision"), spec["boundary"], errs[:1]))
+        for k in range(3):
+            H.step(); F.step()
+            a = sorted(state(H)); b = sorted(state(F))
+            if len(a) != len(b) or any(any(not (u_ == v_ or (u_ != u_ and v_ != v_)) for u_, v_ in zip(x, y)) for x, y in zip(a, b)):
+                raise Fail(key, "history (%s): %d step(s) later the particles differ from those of the fresh simulation (N %d vs %d, gravity=%s collision=%s)"
+                           % (op, k + 1, len(a), len(b), spec.get("gravity"), spec.get("collision")))
+    except Fail as f:
+        res["fail"] = {"key": f.key, "what": f.what, "detail": f.detail, "step": res["stats"]["steps"]}
+    except RuntimeError as e:
+        res["fail"] = {"key": key, "what": "library raised (%s): %s" % (op, e)}
+    return res
+
 # ------------------------------------------------------------------------------------------------ corner cases (explicit coordinates)
 def run_corner(spec):
     res = {"fail": None, "dumps": [], "bcases": [], "stats": {"steps": 0, "tree_checks": 0, "shape_checks": 0, "ties": 0, "maxdepth": 0, "cells": 0, "grav_checks": 0}}
@@ -1026,5 +1150,5 @@ def run_corner(spec):
 
 if __name__ == "__main__":
     spec = json.load(sys.stdin)
-    r = {"tree": run_tree, "boundary": run_boundary, "corner": run_corner, "restore": run_restore, "ops": run_ops, "edges": run_edges, "near": run_near}[spec["kind"]](spec)
+    r = {"tree": run_tree, "boundary": run_boundary, "corner": run_corner, "restore": run_restore, "ops": run_ops, "edges": run_edges, "near": run_near, "hvf": run_hvf}[spec["kind"]](spec)
     sys.stdout.write("\nC15RESULT " + json.dumps(r) + "\n")
